@@ -315,6 +315,18 @@ def _instances():
     }
 
 
+def _ints_beyond_2_53(j):
+    if isinstance(j, bool):
+        return []
+    if isinstance(j, int):
+        return [j] if abs(j) > 2 ** 53 - 1 else []
+    if isinstance(j, dict):
+        return [x for v in j.values() for x in _ints_beyond_2_53(v)]
+    if isinstance(j, list):
+        return [x for v in j for x in _ints_beyond_2_53(v)]
+    return []
+
+
 def _reversed_members(j):
     if isinstance(j, dict):
         return {k: _reversed_members(j[k]) for k in reversed(list(j))}
@@ -354,6 +366,8 @@ def h_positions(ctx, cfg):
         except Exception:
             ok = False
         ctx.prove("plain[%s]" % name, z3.BoolVal(ok))
+        big = _ints_beyond_2_53(j)
+        ctx.prove("integers_beyond_2^53_travel_as_strings[%s]" % name, z3.BoolVal(not big), detail=repr(big[:3]))
         doc = json.loads(s) if ok else None
         if isinstance(v, CodeData):
             back = J.code_data_from_json(doc)
